@@ -149,8 +149,8 @@ pub fn custom_cfg(t: Tier, exact: bool) -> GenCfg {
     cfg
 }
 
-pub fn run(ctx: &Ctx) -> i32 {
-    let mut st = ctx.run_replays(&dispatch);
+pub fn campaigns(ctx: &Ctx) -> Stats {
+    let mut st = Stats::default();
     let t = ctx.tier;
     // chains first: a path-proportional engine is reported here at depth 2-4
     st.merge(ctx.run_indexed("self-product-chains", 3, None, |i| Some(Case11::C(ChainCase { max_depth: t.pick(64, 256), pattern: i as usize }))));
@@ -169,6 +169,12 @@ pub fn run(ctx: &Ctx) -> i32 {
             st.merge(ctx.run_prop(name, total / 2, move || recipe_strategy(len), move |r| Some(Case11::H(HistCase { oracle: "c11".into(), hist: elaborate(&cfg, r) }))));
         }
     }
+    st
+}
+
+pub fn run(ctx: &Ctx) -> i32 {
+    let mut st = ctx.run_replays(&dispatch);
+    st.merge(campaigns(ctx));
     if ctx.tier == Tier::Thorough {
         st.merge(ctx.run_fuzz(20000, ctx.threads, &dispatch));
     }
